@@ -1,1 +1,183 @@
-//! C12 — (harnesses not written yet)
+//! C12 — destination I/O failures surface from the failing call; finalize is retryable.
+use crate::env::*;
+use crate::model::*;
+use crate::refcodec::*;
+use shapefile::record::{ConcreteReadableShape, ReadableShape, WritableShape};
+use shapefile::*;
+
+/// Result of one API call against what the fault stub saw during it.
+fn judge(r: &Result<(), Error>, fired_before: u32, fired_after: u32) {
+    if fired_after > fired_before {
+        assert!(r.is_err(), "a destination failure during this call was swallowed (call returned Ok)");
+        assert!(matches!(r, Err(Error::IoError(_))), "destination failure reported as another error kind");
+    } else {
+        assert!(r.is_ok(), "call failed although no destination operation failed during it");
+    }
+}
+
+/// Workload: write a, write b, finalize, [heal, finalize again], drop. The fault hits the
+/// k-th operation (write/seek/flush, counted per file) of the .shp or of the .shx
+/// (symbolic choice), k symbolic over the whole range the workload issues (+ beyond =
+/// never), one-shot or persistent (symbolic).
+pub fn faults<S: TShape, const N: usize>(sp_a: &Spec, sp_b: &Spec, with_shx: bool, max_ops: u32) {
+    let a = S::build(&sym_spec(S::CODE, sp_a));
+    let b = S::build(&sym_spec(S::CODE, sp_b));
+    // undisturbed reference first (concrete control flow)
+    let mut rshp = MemFile::<N>::new();
+    let mut rshx = MemFile::<N>::new();
+    {
+        let mut w = if with_shx {
+            ShapeWriter::with_shx(&mut rshp, &mut rshx)
+        } else {
+            ShapeWriter::new(&mut rshp)
+        };
+        let r = w.write_shape(&a);
+        std::mem::forget(r);
+        let r = w.write_shape(&b);
+        std::mem::forget(r);
+    }
+    // the workload issues fewer than max_ops operations on either file, so "never" is included
+    assert!(rshp.ops() < max_ops && rshx.ops() < max_ops);
+    let k: u32 = kani::any();
+    kani::assume(k <= max_ops);
+    let on_shx: bool = kani::any();
+    kani::assume(with_shx || !on_shx);
+    let persistent: bool = kani::any();
+    faults_reset();
+    let mut shp = FaultFile::<N>::new(if on_shx { u32::MAX } else { k }, persistent);
+    let mut shx = FaultFile::<N>::new(if on_shx { k } else { u32::MAX }, persistent);
+    let mut writes_ok = true;
+    let mut finalize_failed = false;
+    {
+        let mut w = if with_shx {
+            ShapeWriter::with_shx(&mut shp, &mut shx)
+        } else {
+            ShapeWriter::new(&mut shp)
+        };
+        let f0 = faults_fired();
+        let r = w.write_shape(&a);
+        judge(&r, f0, faults_fired());
+        writes_ok &= r.is_ok();
+        std::mem::forget(r);
+
+        // after a failed call nothing is specified except that dropping the writer does not panic:
+        // no further calls are issued (this also keeps file positions concrete for the solver)
+        if writes_ok {
+            let f0 = faults_fired();
+            let r = w.write_shape(&b);
+            judge(&r, f0, faults_fired());
+            writes_ok &= r.is_ok();
+            std::mem::forget(r);
+        }
+        if writes_ok {
+            let f0 = faults_fired();
+            let r = w.finalize();
+            judge(&r, f0, faults_fired());
+            finalize_failed = r.is_err();
+            std::mem::forget(r);
+        }
+        if writes_ok && finalize_failed {
+            // the destination works again: a second finalize must complete both files
+            faults_heal();
+            let r = w.finalize();
+            assert!(r.is_ok(), "finalize could not be retried after the destination recovered");
+            std::mem::forget(r);
+            kani::cover!(true, "finalize failed and was retried");
+        }
+        // drop: over a persistently failing destination this must not panic
+    }
+    if writes_ok {
+        assert!(same_image(&shp.f, &rshp), ".shp after retry differs from the undisturbed run");
+        if with_shx {
+            assert!(same_image(&shx.f, &rshx), ".shx after retry differs from the undisturbed run");
+        }
+    }
+    kani::cover!(!writes_ok, "a write_shape call failed");
+    kani::cover!(writes_ok && !finalize_failed, "nothing failed");
+}
+
+const PT: Spec = spec(&[]);
+const PL2: Spec = spec(&[2]);
+
+// H: tier=quick; unwind=34; sym=2 Points; fault=k-th op (k symbolic in 0..=60) on .shp or .shx (symbolic), one-shot or persistent (symbolic); workload=write, write, finalize, [heal, finalize], drop; asserts=the call during which the stub failed returns Err(IoError), other calls Ok; retried finalize gives images identical to an undisturbed run; drop does not panic
+#[kani::proof]
+#[kani::unwind(34)]
+fn c12_q_point_shx_fault_k() {
+    faults::<Point, 192>(&PT, &PT, true, 60);
+}
+// H: tier=quick; unwind=34; sym=2 PointZ; fault=k-th op (k symbolic in 0..=60) on .shp, one-shot or persistent; no shx; asserts=as above
+#[kani::proof]
+#[kani::unwind(34)]
+fn c12_q_pointz_noshx_fault_k() {
+    faults::<PointZ, 224>(&PT, &PT, false, 60);
+}
+// H: tier=thorough; unwind=34; sym=Polyline [2] twice; fault=k-th op (k symbolic in 0..=90) on .shp or .shx, one-shot or persistent; asserts=as above
+#[kani::proof]
+#[kani::unwind(34)]
+fn c12_t_polyline_shx_fault_k() {
+    faults::<Polyline, 320>(&PL2, &PL2, true, 90);
+}
+// H: tier=thorough; unwind=34; sym=PolylineZ [2] twice; fault=k-th op (k symbolic in 0..=120) on .shp or .shx, one-shot or persistent; asserts=as above
+#[kani::proof]
+#[kani::unwind(34)]
+fn c12_t_polylinez_shx_fault_k() {
+    faults::<PolylineZ, 512>(&PL2, &PL2, true, 120);
+}
+
+/// Short writes: every write() call accepts fewer bytes than offered, following `policy`
+/// (see env::FaultFile::short_policy).
+pub fn short_writes<S: TShape, const N: usize>(sp: &Spec, with_shx: bool, policy: u8) {
+    let a = S::build(&sym_spec(S::CODE, sp));
+    let mut shp = FaultFile::<N>::never();
+    let mut shx = FaultFile::<N>::never();
+    shp.short = true;
+    shx.short = true;
+    shp.short_policy = policy;
+    shx.short_policy = policy;
+    {
+        let mut w = if with_shx {
+            ShapeWriter::with_shx(&mut shp, &mut shx)
+        } else {
+            ShapeWriter::new(&mut shp)
+        };
+        let r = w.write_shape(&a);
+        assert!(r.is_ok());
+        std::mem::forget(r);
+    }
+    let mut rshp = MemFile::<N>::new();
+    let mut rshx = MemFile::<N>::new();
+    {
+        let mut w = if with_shx {
+            ShapeWriter::with_shx(&mut rshp, &mut rshx)
+        } else {
+            ShapeWriter::new(&mut rshp)
+        };
+        let r = w.write_shape(&a);
+        std::mem::forget(r);
+    }
+    assert!(same_image(&shp.f, &rshp), ".shp written through short writes differs");
+    if with_shx {
+        assert!(same_image(&shx.f, &rshx), ".shx written through short writes differs");
+    }
+    kani::cover!(shp.f.n_write > rshp.n_write, "at least one write was short");
+}
+
+// H: tier=quick; unwind=34; sym=1 Point; schedule=every write() accepts exactly 1 byte; with shx; asserts=bytes identical to a run whose destination accepts everything
+#[kani::proof]
+#[kani::unwind(34)]
+fn c12_q_point_short_writes_1byte() {
+    short_writes::<Point, 160>(&PT, true, 1);
+}
+// H: tier=quick; unwind=34; sym=1 PointZ; schedule=every write() accepts all but one byte; with shx; asserts=bytes identical
+#[kani::proof]
+#[kani::unwind(34)]
+fn c12_q_pointz_short_writes_allbut1() {
+    short_writes::<PointZ, 192>(&PT, true, 2);
+}
+// H: tier=thorough; unwind=34; sym=Polyline [2]; schedule=every write() accepts half (rounded up); with shx; asserts=bytes identical
+#[kani::proof]
+#[kani::unwind(34)]
+fn c12_t_polyline_short_writes_half() {
+    short_writes::<Polyline, 256>(&PL2, true, 3);
+}
+
